@@ -22,6 +22,8 @@ type modCase struct {
 	Edges [][]string `json:"edges"`
 	Main  []string   `json:"main"`
 	Mods  []string   `json:"mods"`
+	Hollow []string  `json:"hollow"` // these module files consist of their 导入 statements only
+	Libs  bool       `json:"libs"`  // every module file and the main file also import the registered library 《@JSON》
 	More  bool       `json:"more"`  // further home-module probes (handler, type construction, type method)
 	Extra string     `json:"extra"` // extra statements appended to the main file (probe programs)
 	Sel   map[string][]string `json:"sel"` // selective import lists for main: module -> exported names
@@ -58,8 +60,23 @@ func handleModule(raw json.RawMessage) interface{} {
 		deps := imports[m]
 		sort.Strings(deps)
 		var sb strings.Builder
+		if c.Libs {
+			sb.WriteString("导入《@JSON》\n")
+		}
 		for _, d := range deps {
 			sb.WriteString("导入“" + modName[d] + "”\n")
+		}
+		hollow := false
+		for _, h := range c.Hollow {
+			if h == m {
+				hollow = true
+			}
+		}
+		if hollow {
+			p := modPath(dir, m)
+			os.MkdirAll(filepath.Dir(p), 0755)
+			os.WriteFile(p, []byte(sb.String()), 0644)
+			continue
 		}
 		x := modShort[m]
 		fmt.Fprintf(&sb, "如何%s方法？\n    输出（%s辅助）\n\n如何%s辅助？\n    输出“%s-help”\n\n", x, x, x, x)
@@ -72,6 +89,9 @@ func handleModule(raw json.RawMessage) interface{} {
 		os.WriteFile(p, []byte(sb.String()), 0644)
 	}
 	var sb strings.Builder
+	if c.Libs {
+		sb.WriteString("导入《@JSON》\n")
+	}
 	for _, m := range c.Main {
 		sb.WriteString("导入“" + modName[m] + "”")
 		if names, ok := c.Sel[m]; ok {
